@@ -654,7 +654,11 @@ def prog_icmp6_mld(rng):
     recs = []
     for _ in range(rng.choice([0, 1, 1, 2, 3])):
         srcs = "+".join(hexs(ip6(rng)) for _ in range(rng.choice([0, 0, 1, 2]))) or "-"
-        recs.append(f"{u(rng, 8)}:{hexs(ip6(rng))}:{srcs}:{hexs(rb(rng, rng.choice([0, 0, 4, 8, 1020])))}")
+        # aux data that is not a whole number of 32-bit words cannot be expressed on the wire (C04's domain), but
+        # serialize() must still be total and size-exact on it (C02): a record writer that pads what size() did not count
+        # overwrites the payload (seeded/C02c)
+        auxlens = [0, 0, 4, 8, 1020] + ([1, 2, 3, 5, 6, 7, 9, 1021] if running_property() == "C02" else [])
+        recs.append(f"{u(rng, 8)}:{hexs(ip6(rng))}:{srcs}:{hexs(rb(rng, rng.choice(auxlens)))}")
     ops.append(f"set 0 multicast_address_records {','.join(recs) or '-'}")
     if rng.random() < 0.2:
         ops += ["show", "set 0 multicast_address_records -"]
